@@ -1519,7 +1519,7 @@ private:
                                                  << " --> " << v + 1 << " from "
                                                  << w.get() << " to ";);
 	// REVISIT(PERFORMANCE): extra call to lookup
-	Wt tightened_w = 2 * (Wt)std::floor((float)w.get() / 2);
+	Wt tightened_w = w.get() - Wt(1); // w is odd: round down to even
 	m_graph.set_edge(v, tightened_w, v + 1);
         CRAB_LOG("octagon-integer", crab::outs() << tightened_w << "\n";);
       }
@@ -1529,7 +1529,7 @@ private:
                                                  << " --> " << v + 1 << " from "
                                                  << w.get() << " to ";);
 	// REVISIT(PERFORMANCE): extra call to lookup
-	Wt tightened_w = 2 * (Wt)std::floor((float)w.get() / 2);
+	Wt tightened_w = w.get() - Wt(1); // w is odd: round down to even
 	m_graph.set_edge(v, tightened_w, v - 1);
         CRAB_LOG("octagon-integer", crab::outs() << tightened_w << "\n";);
       }
